@@ -8,6 +8,9 @@ import Jrpc.Generated.Facts
     * `nextMessage: NextReader` and `resetReadDeadline: SetReadDeadline` run in the reader goroutine of
       the current generation (started after the swap, so ordered by goroutine creation), or — for
       `resetReadDeadline` called from the main loop's pong case — with `writeLk` taken by the caller;
+    * `nextMessage: alias.Close` — the reader closes the connection it has just failed to read from
+      (repair F34), through the local it captured for that read, never through the field: gorilla documents
+      Close as callable concurrently with all other methods, and it writes no frame;
     * `setupPings: SetPongHandler / SetPingHandler` and the capture of the connection in a local
       (`alias`) run before any goroutine of the connection exists or, on reconnect, with `writeLk` held
       by the caller;
@@ -21,7 +24,9 @@ namespace Jrpc.Facts
 theorem conn_uses :
     Generated.connUses = [
       "wsConn.nextMessage: call resetReadDeadline locked=false",
-      "wsConn.nextMessage: NextReader locked=false",
+      "wsConn.nextMessage: alias locked=false",
+      "wsConn.nextMessage: alias.NextReader locked=false",
+      "wsConn.nextMessage: alias.Close locked=false",
       "wsConn.nextWriter: NextWriter locked=true",
       "wsConn.sendRequest: WriteJSON locked=true",
       "wsConn.setupPings: SetPongHandler locked=false",
@@ -32,6 +37,7 @@ theorem conn_uses :
       "wsConn.tryReconnect.func: assign locked=true",
       "wsConn.tryReconnect.func: call setupPings locked=true",
       "wsConn.handleWsConn: call setupPings locked=false",
+      "wsConn.handleWsConn: Close locked=true",
       "wsConn.handleWsConn: call resetReadDeadline locked=true",
       "wsConn.handleWsConn: Close locked=true",
       "wsConn.handleWsConn: RemoteAddr locked=true",
